@@ -14,8 +14,9 @@ CHECKS = {
         'non-primary twins, both twins, the VOI, a foreign variable) and every declared dependency of at most one variable (legal and illegal): exactly the marked classes become external with a placeholder '
         'equation, variables that do not depend on them keep type and equation type, an under-constrained model whose only unknown is marked becomes valid, VOI/twin/foreign markings leave the analysis valid and '
         'are reported with a message, addDependency refuses itself and foreign variables; the generated C and Python obtain external values only through the callback, invoke it (last) after the declared '
-        'dependency holds its final value, and every other value equals the reference.',
-   note='Trusted: lib/depgraph.py reference values, lcx dump, gcc/CPython. Not covered: n > 3, more than one declared dependency, dependencies on states.'),
+        'dependency holds its final value, and every other value equals the reference. Family sdep: an external variable whose declared dependency is a state or depends on one, on every graph with a state (n <= 3); '
+        'every run is judged at a second evaluation point too (states moved, such an external answers differently, only computeVariables called): no value may stay stale.',
+   note='Trusted: lib/depgraph.py reference values, lcx dump, gcc/CPython. Not covered: n > 3, more than two declared dependencies, a moved VOI at the second point (by design not recomputed).'),
  'C17': dict(level='exploration', ref='3/C17',
    technique='bounded-exhaustive enumeration of analysed models (expression shapes, dependency graphs with external variables, invalid models); generated C compiled with -Wall -Wextra -Werror and loaded, Python exec\'d, structure compared with the AnalyserModel',
    text='For every model of the C03 shape enumeration (wrappers algebraic / ODE / NLA, every helper-requiring operator alone and nested in every operand position) and every external-variable '
@@ -41,7 +42,7 @@ CHECKS = {
    text='All dependency graphs on up to 3 variables (kind of definition x read sets, within an edge bound per tier) spread over two connected components in every way are analysed under '
         'nine order/renaming transformations; model type and every variable role are compared with ground truth from the construction, every valid AnalyserModel is checked for the '
         'well-formedness rules of the statement (each class once, dense indices, equation/variable cross-references, dependencies, topological order, NLA siblings), the classification must '
-        'be identical across all transformations, and the generated code of the identity layout is executed and compared with reference values. Dropped/duplicated equations and dropped '
+        'be identical across all transformations, and the generated code of the identity layout is executed and compared with reference values, both after the usual call sequence and after the states were moved and only computeVariables was called (nothing may stay stale). Kinds of definition include coupled systems of implicit equations with initial guesses spanning components. Dropped/duplicated equations and dropped '
         'initial values must be classified under-/over-constrained with an issue.',
    note='Trusted: lib/depgraph.py ground truth (derived from the enum documentation), lcx dump of the AnalyserModel through the public API. Not covered: n > 3, more than two components, '
         'second-order ODEs and cyclic explicit definitions (judged nowhere), units.'),
@@ -189,7 +190,7 @@ CHECKS = {
    technique='bounded-exhaustive enumeration of model specs (forests x connection subsets x listing orders x id patterns; units; resets; imports; math) and of awkward '
              'texts in every string attribute position, judged by an independent canonical dump and by a second, hand-written renderer of the same spec',
    text='Every spec of harness/modelspec.hpp is taken through API build -> validator -> own XML rendering read by the strict parser (must equal the API-built model) -> '
-        'print -> independent well-formedness -> strict parse (same canonical content; no parser issue if the validator accepted the model) -> print -> parse (same content); the printed text is then read back by four further strict parsers with a history (already read this document / read a CellML 1.1 document permissively / read non-XML and an error-ridden document / all of these plus the two neighbouring cases' documents) and printed by a printer that has printed another model - same content, same number of issues as a fresh parser (all families; in the quick tier all but h-q). '
+        'print -> independent well-formedness -> strict parse (same canonical content; no parser issue if the validator accepted the model) -> print -> parse (same content); the printed text is then read back by four further strict parsers with a history (already read this document / read a CellML 1.1 document permissively / read non-XML and an error-ridden document / all of these plus the two documents of the two neighbouring cases) and printed by a printer that has printed another model - same content, same number of issues as a fresh parser (all families; in the quick tier all but h-q). '
         'Quick: all labelled rooted forests on <= 3 components x 1|2 variables x every subset of <= 2 admissible variable pairs x every listing order x both orientations x 5 '
         'id patterns x 2 name orders (29 736), variable attribute product (120), units definitions (6 698: all (reference,prefix,exponent,multiplier) combinations for <= 2 unit '
         'children, every acyclic 2- and 3-definition reference structure in every listing order), resets (65), imports (346), imported components at every position of every labelled forest on <= 4 components x every import mask x with/without imported units x own/shared source x ids (14 866; thorough <= 5 components, 323 314), math blocks x prefix declaration place (15), and '
